@@ -168,8 +168,11 @@ class TextModel:
         base = it.deref(base)
         if not isinstance(base, SymText):
             raise InternalError("slice of %s" % type(base).__name__)
-        lo = self.index_of(it, rng.lo) if rng.lo is not None else base.lo
-        hi = self.index_of(it, rng.hi) if rng.hi is not None else base.hi
+        # offsets are relative to the start of `base`
+        origin = self.offs[base.lo]
+        shift = (lambda o: o) if (isinstance(origin, int) and origin == 0) else (lambda o: it.deref(o) + origin)
+        lo = self.index_of(it, shift(rng.lo)) if rng.lo is not None else base.lo
+        hi = self.index_of(it, shift(rng.hi)) if rng.hi is not None else base.hi
         if rng.inclusive:
             raise InternalError("inclusive slice")
         if lo > hi or lo < base.lo or hi > base.hi:
@@ -200,7 +203,51 @@ class TextModel:
             return recv
         if name == "next_boundary":
             return self.next_boundary(it, recv)
+        if name == "split":
+            return self.split(it, recv, args[0])
+        if name == "trim_end":
+            return self.trim_end(it, recv)
+        if name == "find":
+            return self.find(it, recv, args[0])
+        if name == "repeat":
+            r = it.deref(recv)
+            return Str(None, ("repeat", r if isinstance(r, str) else getattr(r, "s", r), it.deref(args[0])))
+        if name == "chars":
+            from .interp import IterV
+            return IterV(Char(self.cps[k]) for k in range(recv.lo, recv.hi))
         raise InternalError("text method %s" % name)
+
+    def is_char(self, it, k, ch):
+        e = z_eq(self.cps[k], ord(ch))
+        return e if isinstance(e, bool) else it.ex.branch(e)
+
+    def split(self, it, s, sep):
+        """str::split(char): the pieces between occurrences of the separator (forks per character)."""
+        from .interp import IterV
+        if not isinstance(sep, Char) or not isinstance(sep.v, int):
+            raise InternalError("split by a non-literal separator")
+        pieces = []
+        start = s.lo
+        for k in range(s.lo, s.hi):
+            if self.is_char(it, k, chr(sep.v)):
+                pieces.append(SymText(self, start, k))
+                start = k + 1
+        pieces.append(SymText(self, start, s.hi))
+        return IterV(pieces)
+
+    def trim_end(self, it, s):
+        hi = s.hi
+        while hi > s.lo and it.truth(self.char_pred(it, "is_whitespace", Char(self.cps[hi - 1]))):
+            hi -= 1
+        return SymText(self, s.lo, hi)
+
+    def find(self, it, s, pred):
+        """str::find(closure): byte offset (relative to s) of the first character satisfying pred."""
+        for k in range(s.lo, s.hi):
+            if it.truth(it.call_value(pred, [Char(self.cps[k])])):
+                a, b = self.offs[k], self.offs[s.lo]
+                return some(a - b if not (isinstance(b, int) and b == 0) else a)
+        return none()
 
     def function(self, it, name, args, e, mod):
         if name == "GraphemeCursor::new":
